@@ -253,80 +253,106 @@ func c10BudgetAlphabet(n int, thorough bool) []int64 {
 	return out
 }
 
+type c10SysOpt struct {
+	ids       []int
+	nonExcl   bool
+	malformed bool
+}
+
+// c10SetAlpha is the alphabet of one layout.
+type c10SetAlpha struct {
+	l        *c10Layout
+	podAlpha [][]c10Pod
+	podObjs  [][]*statesinformer.PodMeta // prebuilt pod objects (read-only for the code under check)
+	reserved [][]int
+	sys      []c10SysOpt
+	olds     [][]int
+	budgets  []int64
+	rx       mc.Radix
+}
+
+func c10NewSetAlpha(l *c10Layout, thorough bool, npods int) *c10SetAlpha {
+	a := &c10SetAlpha{l: l}
+	// pod alphabets per slot: quick = full x LSE/LSR-only; thorough = full x full x small
+	levels := []int{2, 1}
+	if thorough {
+		levels = []int{2, 2, 0}
+	}
+	var dims []int
+	for k, lv := range levels[:npods] {
+		opts := c10PodOptions(l, lv)
+		a.podAlpha = append(a.podAlpha, opts)
+		var objs []*statesinformer.PodMeta
+		for _, p := range opts {
+			objs = append(objs, c10BuildPod(k, p))
+		}
+		a.podObjs = append(a.podObjs, objs)
+		dims = append(dims, len(opts))
+	}
+	two := c10FirstK(min(2, l.N))
+	if thorough {
+		a.reserved = c10DedupSets([][]int{nil, c10FirstK(1), two, l.ids()})
+		for _, s := range c10DedupSets([][]int{nil, c10FirstK(1), two, l.setUpperHalf(), l.ids()}) {
+			a.sys = append(a.sys, c10SysOpt{ids: s})
+		}
+		a.sys = append(a.sys, c10SysOpt{ids: two, nonExcl: true}, c10SysOpt{malformed: true})
+		a.olds = c10DedupSets([][]int{l.ids(), two, nil, c10FirstK(1)})
+	} else {
+		a.reserved = c10DedupSets([][]int{nil, two, l.ids()})
+		for _, s := range c10DedupSets([][]int{nil, two, l.setUpperHalf(), l.ids()}) {
+			a.sys = append(a.sys, c10SysOpt{ids: s})
+		}
+		a.sys = append(a.sys, c10SysOpt{ids: two, nonExcl: true})
+		a.olds = c10DedupSets([][]int{l.ids(), two, nil})
+	}
+	a.budgets = c10BudgetAlphabet(l.N, thorough)
+	dims = append(dims, len(a.reserved), len(a.sys), len(a.olds), len(a.budgets), 2)
+	a.rx = mc.Radix{Dims: dims}
+	return a
+}
+
+func (a *c10SetAlpha) decode(i int64) (*c10SetCase, []*statesinformer.PodMeta) {
+	d := a.rx.Decode(i, make([]int, 0, 10))
+	np := len(a.podAlpha)
+	c := &c10SetCase{Layout: a.l.Name}
+	var pods []*statesinformer.PodMeta
+	for k := 0; k < np; k++ {
+		p := a.podAlpha[k][d[k]]
+		if p.CPUSet == "" {
+			continue
+		}
+		c.Pods = append(c.Pods, p)
+		pods = append(pods, a.podObjs[k][d[k]])
+	}
+	so := a.sys[d[np+1]]
+	c.Topo = c10TopoCfg{Reserved: a.reserved[d[np]], Sys: so.ids, SysNonExcl: so.nonExcl, SysMalformed: so.malformed, Static: d[np+4] == 1}
+	c.Old = a.olds[d[np+2]]
+	c.BudgetMilli = a.budgets[d[np+3]]
+	return c, pods
+}
+
 func c10RunCPUSetPart(env *mc.Env, tree *c10Tree, layouts []*c10Layout, npods int) {
 	res := mc.NewResult("C10", "cpuset", "enumeration")
 	res.Exhaustive = true
 	ds := mc.NewDistinctSet()
 	var total int64
+	var alphas []*c10SetAlpha
 	for _, l := range layouts {
-		l := l
-		// pod alphabets per slot: quick = full x LSE/LSR-only; thorough = full x full x small
-		levels := []int{2, 1}
-		if env.Thorough() {
-			levels = []int{2, 2, 0}
+		if !env.Thorough() && l.Split && l.N >= 8 {
+			continue // quick: the split sibling numbering only up to 4 CPUs (all of them in the select and thorough parts)
 		}
-		levels = levels[:npods]
-		var podDims []int
-		var podAlpha [][]c10Pod
-		for _, lv := range levels {
-			opts := c10PodOptions(l, lv)
-			podDims = append(podDims, len(opts))
-			podAlpha = append(podAlpha, opts)
-		}
-		// prebuilt pod objects (read-only for the code under check)
-		podObjs := make([][]*statesinformer.PodMeta, len(podAlpha))
-		for k := range podAlpha {
-			for _, p := range podAlpha[k] {
-				podObjs[k] = append(podObjs[k], c10BuildPod(k, p))
-			}
-		}
-		reserved := c10DedupSets([][]int{nil, c10FirstK(min(2, l.N)), l.ids()})
-		if env.Thorough() {
-			reserved = c10DedupSets([][]int{nil, c10FirstK(1), c10FirstK(min(2, l.N)), l.ids()})
-		}
-		type sysOpt struct {
-			ids       []int
-			nonExcl   bool
-			malformed bool
-		}
-		var sys []sysOpt
-		for _, s := range c10DedupSets([][]int{nil, c10FirstK(1), c10FirstK(min(2, l.N)), l.setUpperHalf(), l.ids()}) {
-			sys = append(sys, sysOpt{ids: s})
-		}
-		sys = append(sys, sysOpt{ids: c10FirstK(min(2, l.N)), nonExcl: true})
-		if env.Thorough() {
-			sys = append(sys, sysOpt{malformed: true})
-		}
-		olds := c10DedupSets([][]int{l.ids(), c10FirstK(min(2, l.N)), nil})
-		if env.Thorough() {
-			olds = c10DedupSets([][]int{l.ids(), c10FirstK(min(2, l.N)), nil, c10FirstK(1)})
-		}
-		budgets := c10BudgetAlphabet(l.N, env.Thorough())
-		dims := append([]int{}, podDims...)
-		dims = append(dims, len(reserved), len(sys), len(olds), len(budgets), 2)
-		rx := mc.Radix{Dims: dims}
-		total += rx.Size()
-		np := len(podDims)
-		done, complete := env.ParallelRangeL(res, rx.Size(), func(lc *mc.Local, i int64) {
-			d := rx.Decode(i, make([]int, 0, 10))
-			c := &c10SetCase{Layout: l.Name}
-			var pods []*statesinformer.PodMeta
-			for k := 0; k < np; k++ {
-				p := podAlpha[k][d[k]]
-				if p.CPUSet == "" {
-					continue
-				}
-				c.Pods = append(c.Pods, p)
-				pods = append(pods, podObjs[k][d[k]])
-			}
-			so := sys[d[np+1]]
-			c.Topo = c10TopoCfg{Reserved: reserved[d[np]], Sys: so.ids, SysNonExcl: so.nonExcl, SysMalformed: so.malformed, Static: d[np+4] == 1}
-			c.Old = olds[d[np+2]]
-			c.BudgetMilli = budgets[d[np+3]]
+		a := c10NewSetAlpha(l, env.Thorough(), npods)
+		alphas = append(alphas, a)
+		total += a.rx.Size()
+	}
+	for _, a := range alphas {
+		a := a
+		l := a.l
+		done, complete := env.ParallelRangeL(res, a.rx.Size(), func(lc *mc.Local, i int64) {
+			c, pods := a.decode(i)
 			lc.Evals++
 			o := c10RunSet(l, c, pods)
-			vs := c10JudgeSetCase(tree, l, c, o, lc.Count)
-			for _, v := range vs {
+			for _, v := range c10JudgeSetCase(tree, l, c, o, lc.Count) {
 				res.Violate(v)
 			}
 			if len(o.Final) > 0 {
@@ -338,20 +364,19 @@ func c10RunCPUSetPart(env *mc.Env, tree *c10Tree, layouts []*c10Layout, npods in
 				res.Sample(fmt.Sprintf("%+v -> containers:%q root:%q", *c, o.Final[tree.ctrFile], o.Final[tree.rootFile]))
 			}
 		})
-		_ = done
 		if !complete {
 			res.Exhaustive = false
-			res.Capped = fmt.Sprintf("time budget hit in layout %s (%d of %d cases of that layout done; later layouts skipped)", l.Name, done, rx.Size())
+			res.Capped = fmt.Sprintf("time budget hit in layout %s (%d of %d cases of that layout done; %d of %d cases overall)", l.Name, done, a.rx.Size(), res.Evaluations, total)
 			break
 		}
 	}
 	res.Traces = res.Evaluations
 	res.Distinct = ds.Len()
-	res.Rule = fmt.Sprintf("every member of: %d processor layouts (sockets{1,2} x NUMA/socket{1,2} x cores/NUMA{1,2,4} x HT{1,2}, adjacent and split sibling numbering) x ordered tuples of %d pods "+
+	res.Rule = fmt.Sprintf("every member of: %d processor layouts (sockets{1,2} x NUMA/socket{1,2} x cores/NUMA{1,2,4} x HT{1,2}, adjacent and split sibling numbering; quick: split only up to 4 CPUs) x ordered tuples of %d pods "+
 		"(absent | QoS{LSE,LSR,LS,BE} x cpuset annotation{core 0, NUMA node 0, all CPUs, last CPU} | malformed annotation; quick: 2nd pod LSE/LSR only; thorough: 3rd pod in {absent, LSE core 0, LSE last CPU, LSR NUMA 0, LS all}) x reservedCPUs{none,{0,1},all (+{0} thorough)} x "+
-		"system-QoS cpuset{none,{0},{0,1},upper half,all; {0,1} non-exclusive; malformed(thorough)} x current BE cpuset{all,{0,1},empty (+{0} thorough)} x budget milli{-1500,1,2001,3000,N/2+0.001,N,N+1 CPUs (+0,2000 thorough)} x kubelet policy{none,static}; "+
-		"non-trivial = a cpuset was written; distinct = distinct (case, written sets) among those", len(layouts), npods)
-	res.Bounds = map[string]any{"layouts": len(layouts), "max_cpus": c10MaxN(layouts), "pods": npods, "cases": total}
+		"system-QoS cpuset{none,{0,1},upper half,all; {0,1} non-exclusive (+{0}, malformed thorough)} x current BE cpuset{all,{0,1},empty (+{0} thorough)} x budget milli{-1500,1,2001,3000,N/2+0.001,N,N+1 CPUs (+0,2000 thorough)} x kubelet policy{none,static}; "+
+		"non-trivial = a cpuset was written; distinct = distinct (case, written sets) among those", len(alphas), npods)
+	res.Bounds = map[string]any{"layouts": len(alphas), "max_cpus": c10MaxN(layouts), "pods": npods, "cases": total}
 	res.Assumptions = []string{
 		"the transient union (old + new cpuset) that applyCPUSetWithNonePolicy writes top-down before the real set is outside the property; the LAST value written per cgroup is judged",
 		"the derived set is the final cpuset.cpus of the BE container cgroup (with kubelet static policy the BE root/pod level holds the recovery set, which is judged for protection only)",
